@@ -80,6 +80,12 @@ type Canonicalizer struct {
 	virtualSubstitutions map[ssa.Value]ssa.Value
 	effectiveInstrs      map[*ssa.BasicBlock][]ssa.Instruction
 	VirtualizedInstrs    map[ssa.Instruction]bool
+
+	// Rendering memos, valid for one function: substituted values and SCEV nodes are
+	// rendered once and over-long renderings are replaced by a digest (loop.RenderSCEV).
+	renderedValues map[ssa.Value]string
+	renderedSCEVs  map[loop.SCEV]string
+	renderGuardHit bool
 }
 
 func NewCanonicalizer(policy LiteralPolicy) *Canonicalizer {
@@ -615,6 +621,17 @@ func (c *Canonicalizer) resetScratch() {
 	}
 
 	c.effectiveInstrs = nil
+	c.renderedValues = nil
+	c.renderedSCEVs = nil
+	c.renderGuardHit = false
+}
+
+// renderSCEV renders a SCEV through the bounded, memoised renderer.
+func (c *Canonicalizer) renderSCEV(s loop.SCEV, r loop.Renamer) string {
+	if c.renderedSCEVs == nil {
+		c.renderedSCEVs = make(map[loop.SCEV]string)
+	}
+	return loop.RenderSCEV(s, r, c.renderedSCEVs)
 }
 
 func (c *Canonicalizer) normalizeValue(v ssa.Value, preferredName ...string) string {
@@ -641,13 +658,18 @@ func (c *Canonicalizer) renamerFunc() loop.Renamer {
 
 	var renamer loop.Renamer
 	renamer = func(v ssa.Value) string {
+		if out, ok := c.renderedValues[v]; ok {
+			return out
+		}
 		if depth >= MaxRenamerDepth {
+			c.renderGuardHit = true
 			return "<depth-limit>"
 		}
 
 		// Check for cycle in current recursion stack
 		for _, s := range stack {
 			if s == v {
+				c.renderGuardHit = true
 				return "<cycle>"
 			}
 		}
@@ -665,6 +687,7 @@ func (c *Canonicalizer) renamerFunc() loop.Renamer {
 		for {
 			// BUG FIX: Detect cycle in iterative substitution
 			if visited[current] {
+				c.renderGuardHit = true
 				return "<cycle>"
 			}
 			visited[current] = true
@@ -675,7 +698,20 @@ func (c *Canonicalizer) renamerFunc() loop.Renamer {
 			}
 
 			if scev, isScev := sub.(loop.SCEV); isScev {
-				return scev.StringWithRenamer(renamer)
+				// A value that stands for a recurrence is rendered once. The result is only
+				// remembered when no depth/cycle guard fired below it, because a guarded
+				// rendering depends on where the recursion started.
+				outerGuard := c.renderGuardHit
+				c.renderGuardHit = false
+				out := loop.BoundRendering(c.renderSCEV(scev, renamer))
+				if !c.renderGuardHit {
+					if c.renderedValues == nil {
+						c.renderedValues = make(map[ssa.Value]string)
+					}
+					c.renderedValues[v] = out
+				}
+				c.renderGuardHit = c.renderGuardHit || outerGuard
+				return out
 			}
 
 			current = sub
@@ -799,7 +835,7 @@ func (c *Canonicalizer) processBlock(block *ssa.BasicBlock) {
 			c.output.WriteString("  ; LoopHeader")
 			if loop.TripCount != nil {
 				// BUG FIX: Use renamer to ensure TripCount variables match the rest of the IR
-				c.output.WriteString(fmt.Sprintf(" TripCount: %s", loop.TripCount.StringWithRenamer(c.renamerFunc())))
+				c.output.WriteString(fmt.Sprintf(" TripCount: %s", c.renderSCEV(loop.TripCount, c.renamerFunc())))
 			}
 			c.output.WriteString("\n")
 		}
@@ -1223,7 +1259,7 @@ func (c *Canonicalizer) NormalizeOperand(v ssa.Value, context ssa.Instruction) s
 
 	switch operand := v.(type) {
 	case loop.SCEV:
-		return operand.StringWithRenamer(c.renamerFunc())
+		return c.renderSCEV(operand, c.renamerFunc())
 	case *ssa.Const:
 		if c.Policy.ShouldAbstract(operand, context) {
 			return fmt.Sprintf("<%s_literal>", sanitizeType(operand.Type()))
